@@ -15,7 +15,7 @@ use std::sync::Mutex;
 
 pub const ID: &str = "C11";
 
-const SRC: [&str; 11] = [
+const SRC: [&str; 15] = [
     "v + 1",
     "q",
     "[1, 2].map(v, v + w)",
@@ -31,6 +31,12 @@ const SRC: [&str; 11] = [
     "size('a b') + v",
     // a map comparison with one differing entry and one failing entry (u is never bound)
     "{'a': v, 'b': w, 'c': u} == {'a': 7, 'b': 10, 'c': 3}",
+    // programs without any identifier (their value could be remembered), and readers of one: as a
+    // plain operand and inside a call the compiler folds when its arguments are constant
+    "7",
+    "[3, 9, 4]",
+    "[q, q]",
+    "size([q, [q]]) + max(5, size(string(q)))",
 ];
 const PROGS: [&str; 3] = ["m", "q", "r"];
 const VARS: [&str; 2] = ["v", "w"];
@@ -58,7 +64,7 @@ pub enum Op {
     Details(u8, u8),
 }
 
-pub const OPS: [Op; 21] = [
+pub const OPS: [Op; 25] = [
     Op::Add(0, 0, 0),
     Op::Add(0, 0, 1),
     Op::Add(0, 1, 2),
@@ -70,6 +76,10 @@ pub const OPS: [Op; 21] = [
     Op::Add(0, 2, 8),
     Op::Add(1, 2, 9),
     Op::Add(0, 1, 10),
+    Op::Add(0, 1, 11),
+    Op::Add(1, 1, 12),
+    Op::Add(0, 0, 13),
+    Op::Add(0, 0, 14),
     Op::Bind(0, 0, 0),
     Op::Bind(0, 0, 1),
     Op::Bind(0, 1, 2),
@@ -586,7 +596,7 @@ pub fn replay_families(t: Tier) -> Vec<Family<'static>> {
 pub fn run(t: Tier) -> i32 {
     let mut rep = Report::new(ID, t, "model_checking");
     rep.rule = format!(
-        "model: two contexts (name -> source over 3 names, 11 colliding sources: a variable, a reference to another program, a macro whose loop variable is named like a bound variable, map macros, a macro shadowing w and reading q, a program referring to itself, keys differing only in case, two texts differing only in blanks inside a literal, a map comparison with a failing entry) and two binding sets (2 variables, 4 values); 21 operations (add/replace x11, bind/rebind x4, clone context, clone bindings, exec x3, inspect details). bfs: breadth-first search to depth {} (or closure) deduplicated on the canonical abstract state, every transition executed on real objects rebuilt by replaying the history and the successor checked on every arrival; histories: every history of length 1..{} without deduplication ({} histories). interference: each of 126 programs over regex patterns, zones, units, durations, timestamps and map macros gives, after all the others ran twice on the same thread, the result it gives on a thread that ran nothing else. Invariants after every history: the real objects hold exactly the model state (sources, bytecode equal to a fresh compile, bindings); every stored program under both binding sets, executed twice (40 times for histories of length <= 2), equals the result of freshly built objects holding the same abstract state; every exec inside the history gave what the state before it determines. Non-trivial = every history; distinct by history",
+        "model: two contexts (name -> source over 3 names, 15 colliding sources: a variable, a reference to another program, a macro whose loop variable is named like a bound variable, map macros, a macro shadowing w and reading q, a program referring to itself, keys differing only in case, two texts differing only in blanks inside a literal, a map comparison with a failing entry, two programs without identifiers and two readers of them - one as a plain operand, one inside a foldable call) and two binding sets (2 variables, 4 values); 25 operations (add/replace x15, bind/rebind x4, clone context, clone bindings, exec x3, inspect details). bfs: breadth-first search to depth {} (or closure) deduplicated on the canonical abstract state, every transition executed on real objects rebuilt by replaying the history and the successor checked on every arrival; histories: every history of length 1..{} without deduplication ({} histories). interference: each of 126 programs over regex patterns, zones, units, durations, timestamps and map macros gives, after all the others ran twice on the same thread, the result it gives on a thread that ran nothing else. Invariants after every history: the real objects hold exactly the model state (sources, bytecode equal to a fresh compile, bindings); every stored program under both binding sets, executed twice (40 times for histories of length <= 2), equals the result of freshly built objects holding the same abstract state; every exec inside the history gave what the state before it determines. Non-trivial = every history; distinct by history",
         t.pick(6, 12),
         t.pick(4, 5),
         (1..=t.pick(4u32, 5u32)).map(|l| (OPS.len() as u64).pow(l)).sum::<u64>()
